@@ -24,7 +24,8 @@ TABLES = []
 MODELS = [("c15", "Extract/ExC15.v", "run_C15")]
 
 LNAMES = {1: "Insert", 2: "DeleteBefore", 3: "MoveCursor", 4: "CompleteNext", 5: "CompletePrev", 6: "Cancel",
-          7: "StartCompletion", 8: "StartTask", 9: "Tick", 10: "CYield", 11: "CEnd", 12: "VReturn", 13: "SReturn", 14: "InstallMenu"}
+          7: "StartCompletion", 8: "StartTask", 9: "Tick", 10: "CYield", 11: "CEnd", 12: "VReturn", 13: "SReturn", 14: "InstallMenu",
+          15: "DeleteFwd", 16: "SetText", 17: "Swap", 18: "Validate", 19: "HistoryLines"}
 END = object()
 
 
@@ -38,6 +39,8 @@ def label_str(l):
         return "SReturn(%d,%r)" % (l[1], unS(l[2][0]) if l[2] else None)
     if k == 14:
         return "InstallMenu(%r)" % ([(unS(t), st) for t, st in l[1]],)
+    if k == 16:
+        return "SetText(%r)" % unS(l[1])
     return "%s(%s)" % (LNAMES.get(k, "?"), ",".join(str(x) for x in l[1:]))
 
 
@@ -49,10 +52,16 @@ def group_str(g):
 # the rig: a real Buffer with gated completer / validator / suggester
 
 class Call:
-    __slots__ = ("no", "doc", "fut")
+    __slots__ = ("no", "doc", "fut", "items")
 
     def __init__(self, no, doc):
         self.no, self.doc, self.fut = no, doc, None
+        self.items = []          # (text, start_position) of the completions this call produced
+
+
+class Obs(list):
+    """an observation; `entry_fail` carries the per-entry check done while the real objects are at hand"""
+    entry_fail = None
 
 
 class Env:
@@ -106,6 +115,9 @@ class Rig:
         self.cactive, self.vactive, self.sactive = [], [], []
         self.sugg_src = {}       # id(Suggestion) -> (Suggestion, Call)
         self.vsrc = None
+        self.sync_verdict = (True, 0)
+        self.obj_tags = {}       # id(Completion made by the buffer itself) -> (Completion, Call, index)
+        self.effective = None
         self.prev_cs = None
         self.reported = set()
 
@@ -129,7 +141,13 @@ class Rig:
 
         class HV(Validator):
             def validate(self, document):
-                pass
+                # synchronous validation (Buffer.validate): verdict given by the Validate label
+                ok, epos = rig.sync_verdict
+                call = Call(len(rig.vcalls), document)
+                rig.vcalls.append(call)
+                if not ok:
+                    from prompt_toolkit.validation import ValidationError
+                    raise ValidationError(cursor_position=epos, message="#%d" % call.no)
 
             async def validate_async(self, document):
                 call = Call(len(rig.vcalls), document)
@@ -179,12 +197,39 @@ class Rig:
                 b.cancel_completion()
             elif k == 7:
                 b.start_completion(select_first=l[1] == 1, select_last=l[1] == 2, insert_common_part=l[1] == 3)
+            elif k == 19:
+                # the real start_history_lines_completion; the model is given InstallMenu with the
+                # list the method computed (the list itself is not modelled, its installation is)
+                call = Call(len(self.ccalls), b.document)
+                self.ccalls.append(call)
+                self.effective = [14, []]
+                b.start_history_lines_completion()
+                cs = b.complete_state
+                comps = list(cs.completions) if cs is not None else []
+                call.items = [(c.text, c.start_position) for c in comps]
+                for j, c in enumerate(comps):
+                    self.obj_tags[id(c)] = (c, call, j)
+                self.effective = [14, [[S(t), st] for t, st in call.items]]
+            elif k == 15:
+                b.delete(l[1])
+            elif k == 16:
+                b.text = unS(l[1])
+            elif k == 17:
+                b.swap_characters_before_cursor()
+            elif k == 18:
+                self.sync_verdict = (bool(l[1]), l[2])
+                doc, before = b.document, self.vst_code()
+                b.validate(set_cursor=bool(l[3]))
+                if before == 0 and self.vst_code() != 0:
+                    self.vsrc = doc
             elif k == 14:
                 # what start_history_lines_completion does with the list it computed from b.document
                 from prompt_toolkit.completion import Completion
                 call = Call(len(self.ccalls), b.document)
                 self.ccalls.append(call)
-                b._set_completions(completions=[Completion(unS(t), st, display_meta="#%d" % call.no) for t, st in l[1]])
+                call.items = [(unS(t), st) for t, st in l[1]]
+                b._set_completions(completions=[Completion(unS(t), st, display_meta="#%d.%d" % (call.no, j))
+                                                for j, (t, st) in enumerate(l[1])])
                 b.go_to_completion(0)
             else:
                 raise ValueError("not a user label: %r" % (l,))
@@ -211,7 +256,8 @@ class Rig:
         if call.fut is None or call.fut.done():
             return None
         if k == 10:
-            call.fut.set_result(Completion(unS(l[2]), l[3], display_meta="#%d" % call.no))
+            call.items.append((unS(l[2]), l[3]))
+            call.fut.set_result(Completion(unS(l[2]), l[3], display_meta="#%d.%d" % (call.no, len(call.items) - 1)))
         elif k == 11:
             call.fut.set_result(END)
         elif k == 12:
@@ -227,10 +273,37 @@ class Rig:
         return call
 
     # -- observation ---------------------------------------------------------
-    def comp_src(self, c):
+    def comp_tag(self, c):
+        ent = self.obj_tags.get(id(c))
+        if ent is not None and ent[0] is c:
+            return ent[1], ent[2]
         m = c._display_meta
-        if isinstance(m, str) and m.startswith("#"):
-            return self.ccalls[int(m[1:])].doc
+        if isinstance(m, str) and m.startswith("#") and "." in m:
+            a, b = m[1:].split(".")
+            return self.ccalls[int(a)], int(b)
+        return None
+
+    def comp_src(self, c):
+        t = self.comp_tag(c)
+        return t[0].doc if t else None
+
+    def entry_check(self, cs):
+        """every menu entry must produce what the completer's completion produced on the document it
+        was computed from (entries re-based by insert_common_part included)"""
+        od = cs.original_document
+        for c in cs.completions:
+            t = self.comp_tag(c)
+            if t is None:
+                return "menu entry %r was not produced by the completer" % (c,)
+            call, j = t
+            ytext, ystart = call.items[j]
+            want = _apply((S(call.doc.text), call.doc.cursor_position), [[S(ytext), ystart]], 0)
+            got = _apply((S(od.text), od.cursor_position), [[S(c.text), c.start_position]], 0)
+            if got != want:
+                return ("menu entry %r (from the completer's Completion(%r, %d) for %r/%d) applied to the menu's document %r/%d gives %r, "
+                        "the completer's completion gave %r" % ((c.text, c.start_position), ytext, ystart, call.doc.text,
+                                                                 call.doc.cursor_position, od.text, od.cursor_position,
+                                                                 unS(got[0]), unS(want[0])))
         return None
 
     def task_died(self):
@@ -260,7 +333,9 @@ class Rig:
         if vst == 0:
             self.vsrc = None
         else:
-            if vresolved is not None and v_before == 0:
+            # ghost: a returning validate_async publishes iff the buffer's document is (again) the one it
+            # was called with - also over a verdict that the synchronous validate() set meanwhile
+            if vresolved is not None and (v_before == 0 or vresolved.doc == b.document):
                 self.vsrc = vresolved.doc
             err = b.validation_error
             if err is not None and isinstance(err.message, str) and err.message.startswith("#"):
@@ -275,10 +350,13 @@ class Rig:
             status = self.task_died()
         else:
             self.task_died()
-        return [status, S(b.text), b.cursor_position, ocs, vst, [dsx(self.vsrc)] if self.vsrc is not None else [], osg,
+        o = Obs([status, S(b.text), b.cursor_position, ocs, vst, [dsx(self.vsrc)] if self.vsrc is not None else [], osg,
                 [int(_running_flag(b._async_completer)), int(_running_flag(b._async_validator)),
                  int(_running_flag(b._async_suggester))],
-                [dsx(c.doc) for c in self.cactive], [dsx(c.doc) for c in self.vactive], [dsx(c.doc) for c in self.sactive]]
+                [dsx(c.doc) for c in self.cactive], [dsx(c.doc) for c in self.vactive], [dsx(c.doc) for c in self.sactive]])
+        if cs is not None:
+            o.entry_fail = self.entry_check(cs)
+        return o
 
     def vst_code(self):
         from prompt_toolkit.buffer import ValidationState
@@ -299,7 +377,7 @@ def dsx(d):
 
 def group_shape_ok(g):
     if len(g) == 1:
-        return g[0][0] in (1, 2, 3, 4, 5, 6, 7, 9, 14)
+        return g[0][0] in (1, 2, 3, 4, 5, 6, 7, 9, 14, 15, 16, 17, 18, 19)
     return len(g) == 2 and g[0][0] == 9 and g[1][0] in (10, 11, 12, 13)
 
 
@@ -315,7 +393,7 @@ def valid_case(case):
                 return False
             for l in g:
                 k = l[0]
-                arity = {1: 2, 2: 2, 3: 2, 4: 3, 5: 3, 6: 1, 7: 2, 9: 1, 10: 4, 11: 2, 12: 3, 13: 3, 14: 2}[k]
+                arity = {1: 2, 2: 2, 3: 2, 4: 3, 5: 3, 6: 1, 7: 2, 9: 1, 10: 4, 11: 2, 12: 3, 13: 3, 14: 2, 15: 2, 16: 2, 17: 1, 18: 4, 19: 1}[k]
                 if len(l) != arity:
                     return False
                 if k == 7 and not (0 <= l[1] <= 3):
@@ -323,6 +401,10 @@ def valid_case(case):
                 if k == 10 and l[3] > 0:
                     return False
                 if k in (4, 5, 12) and l[2] not in (0, 1):
+                    return False
+                if k == 18 and (l[1] not in (0, 1) or l[3] not in (0, 1) or not isinstance(l[2], int)):
+                    return False
+                if k == 16 and not all(isinstance(x, int) for x in l[1]):
                     return False
                 if k == 13 and not (l[2] == [] or (len(l[2]) == 1 and isinstance(l[2][0], list))):
                     return False
@@ -344,6 +426,8 @@ async def _drive(rig, groups, hook=None):
         v_before = rig.vst_code()
         if len(g) == 1 and g[0][0] != 9:
             status = rig.user(g[0])
+            if g[0][0] == 19:
+                g = [rig.effective]
         else:
             if len(g) == 2:
                 call = rig.resolve(g[1])
@@ -447,6 +531,9 @@ def oracle_step(g, ob, oa):
                 if not ok:
                     return ("completion %r in the menu was computed from %r/%d, the menu is for %r/%d" % (
                         unS(c[0]), unS(src[0]), src[1], unS(orig[0]), orig[1]), {"family": "stale-completion", "at": via})
+        ef = getattr(oa, "entry_fail", None)
+        if ef:
+            return (ef, {"family": "menu-entry-result", "at": via})
     # verdict / suggestion
     if vst != 0:
         if not vsrc or vsrc[0][0] != text:
@@ -518,6 +605,7 @@ def alphabet(kind):
     A = []
     if kind in ("comp", "comp-noH", "all"):
         A += [("I", G_user([1, S("b")]), always), ("D", G_user([2, 1]), always), ("M", G_user([3, 0]), always),
+              ("F", G_user([15, 1]), always), ("W", G_user([16, S("xb")]), always),
               ("N", G_user([4, 1, 0]), menu), ("P", G_user([5, 1, 0]), menu), ("X", G_user([6]), menu),
               ] + ([] if kind == "comp-noH" else [("H", G_user([14, [[S("ab"), -1], [S("ac"), -1]]]), always)]) + [
               ("T", TICK, lambda i: i["unstarted"] > 0),
@@ -527,6 +615,8 @@ def alphabet(kind):
     if kind in ("val", "all"):
         if kind == "val":
             A += [("I", G_user([1, S("b")]), always), ("D", G_user([2, 1]), always), ("M", G_user([3, 0]), always),
+                  ("F", G_user([15, 1]), always), ("W", G_user([16, S("xb")]), always),
+                  ("Vs", G_user([18, 1, 0, 1]), always), ("Vf", G_user([18, 0, 0, 1]), always),
                   ("T", TICK, lambda i: i["unstarted"] > 0)]
         A += [("V+", G_sched([12, 0, 1]), lambda i: i["v"] > 0), ("V-", G_sched([12, 0, 0]), lambda i: i["v"] > 0),
               ("R", G_sched([13, 0, [S("x")]]), lambda i: i["s"] > 0), ("R0", G_sched([13, 0, []]), lambda i: i["s"] > 0)]
@@ -556,14 +646,14 @@ RCOMPS = [("ab", -1), ("a", -1), ("abc", -1), ("x", 0), ("", 0), ("b", -1), ("ab
 
 def random_case(rng, maxlen):
     cfg = [rng.randint(0, 1), rng.randint(0, 1), rng.randint(0, 1), rng.choice([10000, 10000, 1, 2, 3])]
-    text = rng.choice(["", "a", "ab", "ab", "a b", "ab\nab"])
+    text = rng.choice(["", "a", "ab", "ab", "a b", "ab\nab", "ab\nabc\n a\nb", "abc\nab\nabd"])
     cur = rng.randint(0, len(text))
     n = rng.randint(3, maxlen)
     groups = []
     for _ in range(n):
         r = rng.random()
         if r < 0.40:
-            k = rng.choice([1, 1, 1, 2, 2, 3, 3, 4, 4, 5, 6, 7, 7, 7, 14])
+            k = rng.choice([1, 1, 1, 2, 2, 3, 3, 4, 4, 5, 6, 7, 7, 7, 14, 15, 15, 16, 16, 17, 18, 18, 19])
             if k == 1:
                 l = [1, S(rng.choice(["a", "b", "b", "ab", "", " "]))]
             elif k == 2:
@@ -576,6 +666,14 @@ def random_case(rng, maxlen):
                 l = [6]
             elif k == 14:
                 l = [14, [[S(c[0]), c[1]] for c in rng.sample(RCOMPS, rng.randint(0, 3))]]
+            elif k == 15:
+                l = [15, rng.choice([1, 1, 1, 2, 0, -1, 9])]
+            elif k == 16:
+                l = [16, S(rng.choice(["", "a", "ab", "xb", "ba", "a b", "abc", "ab\nab"]))]
+            elif k in (17, 19):
+                l = [k]
+            elif k == 18:
+                l = [18, rng.randint(0, 1), rng.choice([0, 1, 1, 5, -2]), rng.randint(0, 1)]
             else:
                 l = [7, rng.randint(0, 3)]
             groups.append([l])
@@ -636,18 +734,15 @@ def gen_batches(chk):
     thorough = chk.tier == "thorough"
     yes = lambda i: True  # noqa
     fams = [
-        ("comp/start(common)", [0, 0, 0, 10000], "a", 1, "comp", [("S3", G_user([7, 3]), yes)], 6 if thorough else 5),
-        ("comp/start(plain)", [0, 0, 0, 10000], "a", 1, "comp", [("S0", G_user([7, 0]), yes)], 6 if thorough else 5),
-        ("comp/start(first)", [0, 0, 0, 10000], "a", 1, "comp", [("S1", G_user([7, 1]), yes)], 6 if thorough else 5),
-        ("comp/start(last),max=2", [0, 0, 0, 2], "a", 1, "comp", [("S2", G_user([7, 2]), yes)], 6 if thorough else 4),
-        ("comp/while-typing", [1, 0, 0, 10000], "a", 1, "comp", [("S3", G_user([7, 3]), yes)], 6 if thorough else 4),
-        ("validate+suggest", [0, 1, 1, 10000], "a", 1, "val", [], 7 if thorough else 6),
-        ("everything", [1, 1, 1, 10000], "a", 1, "all", [("S1", G_user([7, 1]), yes)], 5 if thorough else 4),
+        ("comp/start(common),mixed", [0, 0, 0, 10000], "ab", 1, "comp",
+         [("S3", G_user([7, 3]), yes), ("Y3", G_sched([10, 0, S("Ab"), -1]), lambda i: i["c"] > 0)], 6 if thorough else 5),
+        ("comp/start(plain)", [0, 0, 0, 10000], "ab", 1, "comp", [("S0", G_user([7, 0]), yes)], 5 if thorough else 4),
+        ("comp/start(first)", [0, 0, 0, 10000], "ab", 1, "comp", [("S1", G_user([7, 1]), yes)], 5 if thorough else 4),
+        ("comp/start(last),max=2", [0, 0, 0, 2], "ab", 1, "comp", [("S2", G_user([7, 2]), yes)], 5 if thorough else 4),
+        ("comp/while-typing", [1, 0, 0, 10000], "ab", 1, "comp", [("S3", G_user([7, 3]), yes)], 5 if thorough else 4),
+        ("validate+suggest", [0, 1, 1, 10000], "ab", 1, "val", [], 6 if thorough else 5),
+        ("everything", [1, 1, 1, 10000], "ab", 1, "all", [("S1", G_user([7, 1]), yes)], 4 if thorough else 3),
     ]
-    if thorough:
-        # one level deeper on the alphabet without InstallMenu
-        fams.append(("comp/start(common),no-InstallMenu", [0, 0, 0, 10000], "a", 1, "comp-noH",
-                     [("S3", G_user([7, 3]), yes)], 7))
     fixed = load_corpus(PROP) + cycle_cases() + [WITNESS] + MALFORMED
     yield "corpus+cycle+witness+malformed", fixed
     for name, cfg, text, cur, kind, extra, depth in fams:
@@ -657,7 +752,7 @@ def gen_batches(chk):
         if budget[1]:
             chk.note("exhaustive family %s cut at the budget of %d schedules" % (name, budget[0]))
         yield "exhaustive:%s:depth%d" % (name, depth), out
-    nrand = 30000 if thorough else 4000
+    nrand = 30000 if thorough else 3000
     yield "random", [random_case(rng, 40 if thorough else 24) for _ in range(nrand)]
 
 
@@ -744,6 +839,22 @@ def main(tier):
         for i in sorted(chk.rng.sample(range(len(cases)), min(share, len(cases)))):
             vm_pairs.append((cases[i], impl_results[i], sx_norm(impl_results[i]) == model_results[i]))
         del cases, impl_results, model_results
+    # real threads: ThreadedCompleter / ThreadedValidator / ThreadedAutoSuggest (oracle only)
+    import c15_threads
+    nthr = 300 if chk.tier == "thorough" else 40
+    for j in range(nthr):
+        try:
+            res = with_watchdog(lambda: c15_threads.run_scenario(Env.get(), chk.rng, 25), 90)
+        except Hang:
+            res = {"clause": "threaded scenario hangs (watchdog)", "family": "hang", "actions": []}
+        chk.count_case([999, j, chk.seed], True)
+        if res:
+            chk.violation("oracle", "threaded wrappers: %s  [actions: %s]" % (res["clause"], " ".join(res["actions"])),
+                          {"family": res["family"], "at": "threads"},
+                          {"threaded": True, "actions": res["actions"], "clause": res["clause"],
+                           "how": "harness/c15_threads.py run_scenario: Buffer with ThreadedCompleter/ThreadedValidator/ThreadedAutoSuggest "
+                                  "around slow deterministic functions of the text; timing-dependent, re-run the stream to reproduce"})
+    dist["threaded_stress_scenarios"] = nthr
     chk.coverage["input_distribution"] = dict(dist, labels_executed=lcount)
 
     # extraction/driver cross-check inside Coq on a sample
@@ -779,6 +890,18 @@ def main(tier):
 
 def replay(data):
     rep = data["replay"]
+    if rep.get("threaded"):
+        import random
+        import c15_threads
+        print("threaded scenario (timing dependent); recorded:", rep["clause"], rep["actions"])
+        rng = random.Random(0)
+        for j in range(200):
+            res = with_watchdog(lambda: c15_threads.run_scenario(Env.get(), rng, 25), 90)
+            if res:
+                print("re-run %d: ORACLE FAILS: %s  [actions: %s]" % (j, res["clause"], " ".join(res["actions"])))
+                return 1
+        print("200 fresh threaded scenarios: oracle ok")
+        return 0
     case = rep["case"]
     if not valid_case(case):
         print("malformed case: implementation not run; model answers", run_model("c15", [case])[0])
